@@ -181,6 +181,10 @@ def run_case(args):
     if shim and not form.startswith('vi') and exp_out is not None and R.random() < 0.15:
         # the kernel accepts only part of one write(): the rest must follow, from where the short write stopped
         fault = 'write:%d:%s' % (R.randint(1, 3), R.choice(['short1', 'shorthalf', 'shortallbut1']))
+        if form in ('w', 'range', 'own', 'read-mid') and R.random() < 0.4:
+            # ... or the rest does NOT follow (an error after the short count): then the write must not be reported as done
+            k = R.randint(1, 3)
+            fault = 'write:%d:%s,write:%d:%s' % (k, R.choice(['short1', 'shorthalf', 'shortallbut1']), k + 1, R.choice(['ENOSPC', 'EFBIG', 'EIO']))
         envx = {'LD_PRELOAD': shim, 'NEATVI_FAULT': fault, 'ASAN_OPTIONS': common.base_env('/tmp')['ASAN_OPTIONS'] + ':verify_asan_link_order=0'}
     if form.startswith('vi'):
         keys = b':w! out\n' if form == 'vi-w' else b'ZZ'
@@ -223,6 +227,8 @@ def run_case(args):
         return (rep, 'sanitizer/crash while %s on %s: %s' % (form, desc, r.err[-400:].decode('latin-1')), wit, desc, form)
     if r.timed_out:
         return ('inconclusive', 'timeout', wit, desc, form)
+    if fault and ',' in fault and b'[w]' not in r.out:
+        return (None, None, None, desc, form)      # the failure was reported (what the file then holds is C03's business)
     if exp_out is not None:
         if got is None:
             if not (exp_out == b'' and target == 'out' and False):
